@@ -37,10 +37,10 @@ def ensure(log=print, cli=False):
     try:
         h = tree_hash()
         stamp = os.path.join(BUILD, 'stamp')
-        paths = dict(mir=os.path.join(BUILD, 'lib.mir'), native_dev=os.path.join(BUILD, 'native/debug/native_obs'),
+        paths = dict(cli_mir=os.path.join(BUILD, 'cli.mir'), cli_bin=os.path.join(BUILD, 'cli/debug/chiritori'), mir=os.path.join(BUILD, 'lib.mir'), native_dev=os.path.join(BUILD, 'native/debug/native_obs'),
                      native_rel=os.path.join(BUILD, 'native/release/native_obs'), hash=h, repo=REPO,
                      src=os.path.join(REPO, 'chiritori/src'))
-        if os.path.exists(stamp) and open(stamp).read() == h and all(os.path.exists(paths[k]) for k in ('mir', 'native_dev', 'native_rel')):
+        if os.path.exists(stamp) and open(stamp).read() == h and all(os.path.exists(paths[k]) for k in ('mir', 'native_dev', 'native_rel', 'cli_mir', 'cli_bin')):
             log(f'build: up to date (tree hash {h[:12]})')
             return paths
         t0 = time.time()
@@ -54,6 +54,14 @@ def ensure(log=print, cli=False):
         if os.path.getsize(paths['mir'] + '.tmp') < 1000:
             raise BuildError('empty MIR dump')
         os.replace(paths['mir'] + '.tmp', paths['mir'])
+        for d in glob.glob(os.path.join(BUILD, 'mir/debug/.fingerprint/chiritori-cli-*')):
+            shutil.rmtree(d, ignore_errors=True)
+        run(['cargo', '+nightly', 'rustc', '--offline', '--locked', '-p', 'chiritori-cli', '--bin', 'chiritori', '--target-dir',
+             os.path.join(BUILD, 'mir'), '--', '-Zunpretty=mir', '-Ztrim-diagnostic-paths=no', '-C', 'debug-assertions=off',
+             '-C', 'overflow-checks=on'], cwd=REPO, out=paths['cli_mir'] + '.tmp')
+        os.replace(paths['cli_mir'] + '.tmp', paths['cli_mir'])
+        # the real command-line binary (stable toolchain) for the native differential of C20
+        run(['cargo', 'build', '--offline', '--locked', '-p', 'chiritori-cli', '--target-dir', os.path.join(BUILD, 'cli')], cwd=REPO)
         # 2. native observer, both profiles
         shutil.copy(os.path.join(REPO, 'Cargo.lock'), os.path.join(VERIF, 'native/Cargo.lock'))
         nat = os.path.join(VERIF, 'native')
